@@ -16,6 +16,7 @@ From SWH Require Import Generated.
 From SWH.model Require Import Swhid.
 From SWH.proofs Require Import SwhidTables SwhidLib PercentProofs SwhidProofs SwhidParseProofs SwhidLinesProofs
   SwhidQProofs SwhidLangProofs SwhidProps.
+From SWH.proofs Require SwhidExamples.
 Import ListNotations.
 Open Scope N_scope.
 
